@@ -1,6 +1,7 @@
 (* Run/C09.v — executable comparator for the C09 correspondence. *)
 From Coq Require Import List NArith ZArith Bool.
 From Cedar Require Import Lib.Bytes gen.Consts Model.Msg Model.Privacy Model.AdWire.
+From Cedar Require Export Model.PrivacySeq.   (* the case files name its constructors *)
 Import ListNotations.
 Local Open Scope N_scope.
 
@@ -26,13 +27,17 @@ Inductive case :=
 (* the whole decision through PutClassAdWithOptions: options, whitelist, EncryptedAttrs, peer -> indices kept *)
 | CFilter (names : list bytes) (tbl : list (list bytes))
           (runs : list (N * nat * nat * option (Z * Z * Z) * list nat))
-| CAd (attrs : list (bytes * bytes)) (mytype targettype : bytes) (tbl : list (list bytes)) (runs : list run).
+| CAd (attrs : list (bytes * bytes)) (mytype targettype : bytes) (tbl : list (list bytes)) (runs : list run)
+(* a history through one Message on a real Stream that starts in state (key, enc): stream-state
+   changes, fresh Messages and ad writes (Model/PrivacySeq.v); frames = every frame written, in order *)
+| CSeq (key enc : bool) (ops : list sop) (frames : list (bool * bool * (N * N * bytes * bytes))).
 
 (* n copies of a byte string: compact notation for long generated values *)
 Definition rep (n : N) (b : bytes) : bytes := concat (repeat b (N.to_nat n)).
 
 Definition mkcfg opts wl ea peer : config :=
   {| c_opts := opts; c_whitelist := wl; c_enc_attrs := ea; c_peer := peer |}.
+Definition mkad attrs my tg : ad := {| ad_attrs := attrs; ad_mytype := my; ad_targettype := tg |}.
 
 Fixpoint list_eqb {A} (eqb : A -> A -> bool) (a b : list A) : bool :=
   match a, b with
@@ -98,6 +103,7 @@ Definition check_case (c : case) : bool :=
         list_eqb Nat.eqb
           (kept_idx (attrs_to_send (mkcfg opts (tbl_get tbl wl) (tbl_get tbl ea) peer) (idx_attrs names))) kept) runs
   | CAd attrs my tg tbl runs => forallb (check_run attrs my tg tbl) runs
+  | CSeq key enc ops frames => all2 oframe_eqb (s_out (run_seq (sstate_init key enc) ops)) frames
   end.
 
 Fixpoint mism (i : nat) (cs : list case) : list nat :=
